@@ -196,7 +196,10 @@ impl SearchFilters {
         let mut bytes = Vec::new();
 
         if !filters.is_empty() {
+            // a special filter is written as \nand\[x] or \nor\[x], followed by its x conditions
+            bytes.extend([b'\\']);
             bytes.extend(name.as_bytes());
+            bytes.extend([b'\\']);
             bytes.extend(filters.len().to_string().as_bytes());
             for filter in filters.values() {
                 bytes.extend(filter.to_bytes());
